@@ -40,6 +40,18 @@ DET = {
  'C15-rvalue-range-move-if-noexcept': ('C15', ['C15 quick: emplace/p13/f3|f7 asserts 121/122 (rvalue range of a type whose converting move constructor is not noexcept must still be moved from once per item); pair 13 was added for this']),
  'C18-swap-keeps-fixed-sizes': ('C18', ['C18 quick: empty/F1|F2|M1|N1|N3 case "swap with a non-empty vector" with independent fixed sizes (the partner used to get the same fixed sizes as the empty vector)']),
  'C19-copy-ctor-skips-soccc': ('C19', ['C19 quick: const/*/vec-soccc RACE-WRITE "allocation through allocator instance 1 of a shared container during a const operation"; also C08 quick assert 801. The allocator-instance freeze was added for this']),
+ 'C01-iterator-convert-assign-memory': ('C01', ['C01 quick: seq/*/reserve... BOUNDS load from the freed old block through a const_iterator variable re-seated with `cit = v.begin()` after reserve; C11 quick: ref/*/part1 cross-vector re-seating. Both re-seating steps were added after reading the report of this change (a harness that only uses begin()/end() cannot see it)']),
+ 'C02-memcpy-compatible-size-paren': ('C02', ['C02 quick: emplace/p11/f1|f4|f9 BOUNDS memcpy of 4-byte items into a 1-byte span (emplace obligations with size-changing integral pairs were added to the C02 pool); C15 quick: same obligations, assert 110']),
+ 'C03-align-first-parameter-segment': ('C03', ['C03 quick: layout/V3 (largest alignment behind the first VaryingSize parameter): ALIGN obligations on the second element']),
+ 'C05-erase-end-slot-no-diff': ('C05', ['C05 quick: seq/V1|V3/erase+probe assert x99 (element start is not the lowest aligned address after the previous element); the tight-packing assertion in Inv was added for the history shapes after reading the report']),
+ 'C06-elem-ext-move-steals-unequal': ('C06', ['C06 quick: elem/N*/prop-ne/elem_ctor LIFETIME "object constructed on top of a live object" (propagating unequal allocators joined the C06 element pool); C12 quick caught it unchanged']),
+ 'C07-pointer-move-assign-via-reset': ('C07', ['C07 quick: copy/*/prop-ne/move_assign LEDGER unequal allocator (reverts fix 3be7286)']),
+ 'C08-elem-swap-std-swap': ('C08', ['C08 quick: elem/V1|N2/c*m0s1*/elem_swap assert 801 + LEDGER (element swap between unequal propagating-on-swap allocators was added to the harness and the C08 pool)']),
+ 'C09-pocca-allocate-before-size': ('C09', ['C09 quick: copy/*/prop-ne/copy_assign BOUNDS / LEDGER size mismatch (prop-ne joined the C09 quick pool)']),
+ 'C11-iterator-convert-assign-locator': ('C11', ['C11 quick: ref/*/part1 asserts 300/391 after `cit = v.begin()` on a const_iterator that was bound to another vector (added after reading the report)']),
+ 'C12-pocca-allocate-before-size': ('C12', ['C12 quick: elem/V1|N2/prop-ne/elem_assign BOUNDS store past the too-small new block']),
+ 'C16-erase-through-temporary': ('C16', ['C16 quick: seq/N2/*/erase... assert x90 (erase allocates). MISSED while the KF-erase-overlap exclusion was applied to every property (DESIGN 10)']),
+ 'C17-pocca-branch-dangling-on-throw': ('C17', ['C17 quick: exc/*/prop-ne/copy_assign LEDGER double free / BOUNDS after the allocation in the propagating branch throws']),
  'C19-elem-copy-assign-moves': ('C19', ['C19 quick: const/N2/elem RACE-WRITE store into the frozen shared element during copy assignment from it - the shared-const-element part of the harness was added for this']),
 }
 for d, (prop, det) in DET.items():
